@@ -3,6 +3,10 @@
 import json, subprocess
 
 CLAIMS = {
+ "C08": dict(
+   text="P-accept contracts on the real seal checks: verifySeal accept => difficulty>0 and be(powHash) <= floor(2^256/difficulty) and the returned hash is the computed one; CheckWorkThreshold / CalcWorkShareThreshold accept => thresholdDiff>0 and be(powHash) <= floor(2^256/diff)*2^thresholdDiff; plus an SSA data-flow obligation that every WorkObjectHeader field except the declared seal/cache fields flows into SealEncode.",
+   note="Assumed: the PoW hash engines (ComputePowHash is a trusted contract: deterministic, read-only), hash collision-freedom. Not yet under contract: AuxPoW branch of verifyHeader, Header.SealEncode coverage, CheckIfValidWorkShare post-fork branch.",
+   design="4 (C08)", technique="contract-based deductive verification (accept => bound) over big.Int models + SSA field-flow obligations"),
  "C03": dict(
    text="crypto.ValidateSignatureValues accepts exactly 1<=r<N, 1<=s<=N/2, v in {0,1} (functional postcondition, for all inputs), with N and N/2 proved from the package initialiser and shown never to be reassigned (SSA scan).",
    note="Partial: only the signature-value predicate is under contract so far; recoverPlain, SignerV1.Sender chain-id guard, Sender cache and the Qi signature obligations are not yet. ECDSA/Schnorr/MuSig2/keccak are external and assumed.",
